@@ -27,6 +27,10 @@ var c06Corpus = []corpusCase{
 	{"malformed-join-scalar-entry", FedInput{Spec: FixedFed(), StoreSeed: 5, Query: `{ allUsers { firstName lastName } }`, ListLen: 12, Faults: []FaultSpec{{Service: "A", MatchID: "root", Kind: "join-scalar", Path: []string{"allUsers"}}}}, ""},
 	{"malformed-join-no-id", FedInput{Spec: FixedFed(), StoreSeed: 5, Query: `{ allUsers { firstName lastName } }`, ListLen: 12, Faults: []FaultSpec{{Service: "A", MatchID: "root", Kind: "join-drop-id", Path: []string{"allUsers"}}}}, ""},
 	{"malformed-root-wrong-shape", FedInput{Spec: FixedFed(), StoreSeed: 5, Query: `{ allUsers { firstName lastName } }`, Faults: []FaultSpec{{Service: "A", MatchID: "root", Kind: "wrong-shape"}}}, ""},
+	{"nested-follow-ups-under-list-40", FedInput{Spec: FixedFed(), StoreSeed: 5, Query: `{ allUsers { photos { likes likedBy { firstName } } } }`, ListLen: 40, ListOnly: []string{"u1", "u3"}, Barrier: 31}, "three plan levels: follow-ups of follow-ups under a long list (any limit on simultaneous steps must not be held while waiting for children)"},
+	{"nested-follow-ups-under-list-150", FedInput{Spec: FixedFed(), StoreSeed: 5, Query: `{ allUsers { lastName photos { url likes owner { nick } } } }`, ListLen: 150, Barrier: 30}, ""},
+	{"nested-follow-ups-under-list-failing", FedInput{Spec: FixedFed(), StoreSeed: 5, Query: `{ allUsers { photos { likes } } }`, ListLen: 64, Barrier: 32,
+		Faults: []FaultSpec{{Service: "C", From: 3, Count: 40, Kind: "transport"}}}, ""},
 	{"root-failure", FedInput{Spec: FixedFed(), StoreSeed: 5, Query: `{ allUsers { firstName lastName } }`, Faults: []FaultSpec{{Service: "A", From: 0, Count: 1, Kind: "transport"}}}, ""},
 }
 
